@@ -14,16 +14,21 @@ def main():
     args = [a for a in sys.argv[1:] if not a.startswith("--")]
     props = None
     notests = "--notests" in sys.argv
+    srcroot, suffix = "/tmp/seeds", "ab"
     for a in sys.argv[1:]:
         if a.startswith("--props="):
             props = a.split("=", 1)[1]
+        if a.startswith("--src="):
+            srcroot = a.split("=", 1)[1]
+        if a.startswith("--suffix="):
+            suffix = a.split("=", 1)[1]
     for pid in args:
-        src = "/tmp/seeds/c%s" % pid[1:]
-        for v in "AB":
+        src = "%s/c%s" % (srcroot, pid[1:])
+        for v, sfx in zip("AB", suffix):
             if not os.path.exists(os.path.join(src, "patch%s.diff" % v)):
                 print(pid, v, "missing")
                 continue
-            dst = os.path.join(VERIF, "seeded", "%s%s" % (pid, v.lower()))
+            dst = os.path.join(VERIF, "seeded", "%s%s" % (pid, sfx))
             os.makedirs(dst, exist_ok=True)
             shutil.copy(os.path.join(src, "patch%s.diff" % v), os.path.join(dst, "patch.diff"))
             shutil.copy(os.path.join(src, "demo%s.py" % v), os.path.join(dst, "demo.py"))
@@ -43,7 +48,7 @@ def main():
             json.dump(res, open(os.path.join(dst, "result.json"), "w"), indent=1)
             runs = res.get("runs", [])
             verdict = ["%s:exit%s%s" % (x["check"], x["exit"], "(nfi)" if any("no-failing-input-found" in l for l in x["lines"]) else "") for x in runs]
-            print(pid + v.lower(), "tests=", res.get("tests"), "demo(patched/clean)=", res.get("demo_patched_exit"), res.get("demo_clean_exit"),
+            print(pid + sfx, "tests=", res.get("tests"), "demo(patched/clean)=", res.get("demo_patched_exit"), res.get("demo_clean_exit"),
                   " ".join(verdict), res.get("error", ""))
 
 
